@@ -5,6 +5,12 @@ import json, os
 V = os.path.dirname(os.path.dirname(os.path.abspath(__file__)))
 props = [json.loads(l)["id"] for l in open(os.path.join(V, "properties.jsonl"))]
 reg = json.load(open(os.path.join(V, "checks/registry.json")))
+import glob
+for f in sorted(glob.glob(os.path.join(V, "checks/C*.registry.json"))):
+    for k, v in json.load(open(f)).items():
+        reg.setdefault(k, v)
+enabled = set(open(os.path.join(V, "checks/enabled.txt")).read().split())
+reg = {k: v for k, v in reg.items() if k in enabled}
 na_path = os.path.join(V, "checks/not_applicable.json")
 na = json.load(open(na_path)) if os.path.exists(na_path) else {}
 hooks_path = os.path.join(V, "checks/hooks.json")
